@@ -431,9 +431,9 @@ func init() { drv.Register("c09virt", verifC09Virt) }
 
 func verifC09Virt(c *drv.Ctx) {
 	scns := c09vScenarios(c.Thorough())
-	bound := 1
+	bound := 2
 	if c.Thorough() {
-		bound = 2
+		bound = 3
 	}
 	c.R.Rule = fmt.Sprintf("the real socks5.Scanner.Scan on the virtual TCP network (zzvenv/vnet.go; dial timeout %v, data timeout %v): every scripted peer behaviour = connect outcome {accept at once, accept after 700 ms, accept after the dial timeout, refuse, refuse late, SYN dropped, nothing listening} x {peer reads the greeting first, peer answers unasked} x reply {6 two-byte replies in one segment, 05|00 and 05|01 split with gaps 0/400 ms/1.5 s, late by 600 ms/1.5 s, slow split, one byte then close/reset/stall, nothing then close/reset/stall, 0500/0501 + 300 bytes} x after the reply {stay open, close, reset, junk}; "+
 		"(i) each alone under every schedule with deviation bound %d and the cancel event at every choice point; (ii) each as the second probe of a scanner whose first probe met a real proxy (state carried between probes); (iii) pairs of concurrent probes on one scanner, bound %d. Oracle: timeline model, exact on the virtual clock; "+
